@@ -78,9 +78,12 @@ def cmd_meaning(cfg, cmd):
     return []
 
 
-def events_of(rows):
+def events_of(rows, limit=None):
+    """limit: stop after this many events (a strobe stuck high must not build an unbounded list)"""
     ev = []
     for r in rows:
+        if limit is not None and len(ev) > limit:
+            break
         rdy, sii, sv, sio, iin, sr, vin, iout, cp = r
         if sii:
             ev.append(f'selIn:{iin}')
@@ -178,25 +181,66 @@ class Producer:
             self.items.pop(0)
 
 
-def run_req_real(cfg, items, tail, cap=200000):
-    """returns (inputs, rows, leftover characters)"""
+def cycle_budget(items, cmds=None):
+    """upper bound on the cycles a correct decoder needs for this stream, with slack: a character costs at most its idle gap + 3
+    cycles (state 0, accept, state 2); command tails: '=' '!' 2, '?' 4, ';' 2n+2, other 1. Everything beyond the budget is a stall."""
+    b = sum(len(j) + 4 for j, _ in items) + 64
+    if cmds is not None:
+        b += sum(6 + (2 * hex_val(ds) if k == 'K' else 0) for k, ds in cmds)
+    return b
+
+
+def run_req_real(cfg, items, tail, cap):
+    """bounded by `cap` cycles. returns (inputs, rows, leftover characters, info) with info = dict(handshakes, captures,
+    bad_capture = first cycle in which a character was captured without valid&ready (or a handshake was not captured),
+    last_handshake = cycle of the last valid&ready edge, stalled = budget exhausted before the stream was through)"""
     R = RealReq(cfg)
     P = Producer(items)
     ins, rows = [], []
     idle = 0
-    while idle < tail and len(rows) < cap:
+    info = dict(handshakes=0, captures=0, bad_capture=None, last_handshake=None, stalled=False)
+    while idle < tail:
+        if len(rows) >= cap:
+            info['stalled'] = True
+            break
         v, c = P.out()
         R.valid.put(v)
         R.c.put(c)
         rdy = R.ready.get()
+        pre = R.req.state
         with contextlib.redirect_stdout(io.StringIO()):
             R.sim.clk(1)
         P.next(rdy)
+        hs = bool(v and rdy)
+        cap_ = (pre == 1 and R.req.state == 2)        # READY -> CONSUME CHAR: the decoder took what is on `c`
+        info['handshakes'] += hs
+        info['captures'] += cap_
+        if hs:
+            info['last_handshake'] = len(rows)
+        if hs != cap_ and info['bad_capture'] is None:
+            info['bad_capture'] = len(rows)
         ins.append((v, c))
         rows.append(R.row())
         if not P.items and R.req.state == 1:
             idle += 1
-    return ins, rows, len(P.items)
+    return ins, rows, len(P.items), info
+
+
+MAX_RECORDED = 60
+
+
+def rdis(res, stream, detail):
+    """res.disagree with a cap on the number of recorded details"""
+    res.hist('disagreements', stream[:40])
+    if sum(1 for b in res.broken if b[0] == 'correspondence') < MAX_RECORDED:
+        res.disagree(stream, detail)
+
+
+def rfail(res, what, rp):
+    """res.fail with a cap on the number of recorded replays (a broken decoder fails thousands of cases)"""
+    res.hist('oracle_failures', what[:60])
+    if len(res.failures) < MAX_RECORDED:
+        res.fail(what, rp)
 
 
 # ------------------------------------------------------------------------------------------------
@@ -300,6 +344,33 @@ def req_stream(res, tier, rng, driver_ok):
         # keep K bursts short: a ';' after many digits would pulse for ages
         cases.append(dict(cfg=cfg, chars=chars, gaps='rand', kind='malformed', r=r))
     lines, infos = [], []
+    def flush():
+        if not (driver_ok and lines):
+            return
+        outs = run_driver('Drv/C20.lean', lines)
+        for (kind, rp, dat), ans in zip(infos, outs):
+            res.cov['disagreements_checked'] += 1
+            if kind == 'open':
+                want = ';'.join(','.join(str(x) for x in rw) for rw in dat)
+                if ans.strip() != want:
+                    rdis(res, 'req-open', dict(rp, first_diff=_first_diff(ans.strip().split(';'), want.split(';'))))
+            elif kind == 'loop':
+                rows, left = dat
+                want = ';'.join(','.join(str(x) for x in rw) for rw in rows) + f' | {left}'
+                if ans.strip() != want:
+                    rdis(res, 'req-loop', dict(rp, first_diff=_first_diff(ans.split('|')[0].strip().split(';'), want.split('|')[0].strip().split(';'))))
+            else:
+                chars, exp, obs, iso = dat
+                f = [x.strip() for x in ans.split('|')]
+                want = ['1', ','.join(str(x) for x in chars), ','.join(exp), ','.join(obs), '1' if iso else '0']
+                if len(obs) > len(exp) + 64:      # observed event list was capped (already an oracle failure): compare the prefix
+                    f[3] = ','.join(f[3].split(',')[:len(obs)])
+                if f != want:
+                    rdis(res, 'req-spec(lean spec vs python transcription of the spec)', dict(rp, lean=f, python=want))
+                # f[2] != f[3] (meaning vs observed events) is the oracle failure already reported through res.fail above
+        del lines[:]
+        del infos[:]
+
     for cs in cases:
         cfg = cs['cfg']
         if 'cmds' in cs:
@@ -312,8 +383,10 @@ def req_stream(res, tier, rng, driver_ok):
             items = gen_gaps(cs['r'], chars)
         else:
             items = [([0] * g, ch) for g, ch in zip(cs['gaps'], chars)]
-        cap = 4000 if cs['kind'] == 'malformed' else 200000
-        ins, rows, left = run_req_real(cfg, items, tail=3, cap=cap)
+        # every simulation is bounded: well-formed streams by the budget a correct decoder needs (+ slack), malformed ones by a
+        # fixed cap (a ';' after many digits may legitimately pulse for longer: truncated, model and code see the same cycles)
+        cap = cycle_budget(items) + 600 if cs['kind'] == 'malformed' else cycle_budget(items, cs['cmds'])
+        ins, rows, left, info = run_req_real(cfg, items, tail=3, cap=cap)
         key = (cs['kind'], cfg, tuple(chars), tuple(len(j) for j, _ in items))
         res.count(key, hist={'req_kind': cs['kind'], 'req_cycles': min(len(rows) // 50 * 50, 1000)})
         for rw in rows:
@@ -322,23 +395,32 @@ def req_stream(res, tier, rng, driver_ok):
             res.hist('req_char_class', chr(c) if c in CMD_ALPHA else 'other')
         wrows = [rw[4:] for rw in rows]
         rp = dict(stream='req', cfg=list(cfg), chars=chars, text=''.join(chr(c) if 32 <= c < 127 else '.' for c in chars),
-                  gaps=[len(j) for j, _ in items], cycles=len(rows))
+                  gaps=[len(j) for j, _ in items], cycles=len(rows), handshakes=info['handshakes'], captures=info['captures'])
+        # ---- handshake clause (all streams, malformed included): a character is consumed only in a cycle with valid & ready,
+        #      and every such cycle consumes one (count of captures = count of handshakes)
+        if info['bad_capture'] is not None:
+            t = info['bad_capture']
+            rfail(res, 'the decoder accepted a character without a ready/valid handshake (or ignored a handshake)',
+                  dict(rp, cycle=t, valid_c=list(ins[t]), ready_before_edge=(wrows[t - 1][0] if t else 0),
+                       state_after=rows[t][2]))
         if 'cmds' in cs:
             rp['cmds'] = [cmd_str(c) for c in cs['cmds']]
             # ---- the property's oracle on the implementation (python transcription of the spec)
             exp = [e for cmd in cs['cmds'] for e in cmd_meaning(cfg, cmd)]
-            obs = events_of(wrows)
-            if left:
-                res.fail(f'{left} characters never accepted', dict(rp, expected=exp, observed=obs))
+            obs = events_of(wrows, limit=len(exp) + 64)
+            if left or info['stalled']:
+                rfail(res, 'the decoder stopped accepting characters (stream stalled within the cycle budget)',
+                      dict(rp, characters_left=left, next_char=(chars[len(chars) - left] if left else None),
+                           stalled_after_cycle=info['last_handshake'], budget=cap, expected=exp[:60], observed=obs[:60]))
             elif obs != exp:
-                res.fail('decoded strobe events differ from the meaning of the command stream',
-                         dict(rp, expected=exp[:60], observed=obs[:60]))
+                rfail(res, 'decoded strobe events differ from the meaning of the command stream',
+                      dict(rp, expected=exp[:60], observed=obs[:60]))
             for a, b in zip(wrows, wrows[1:]):
                 if a[8] and b[8]:
-                    res.fail('clk_pulse high in two consecutive cycles', rp)
+                    rfail(res, 'clk_pulse high in two consecutive cycles', rp)
                     break
             if any(rw[0] != (1 if st[2] == 1 else 0) for rw, st in zip(wrows, rows)):
-                res.fail('ready is not high exactly in the accepting state', rp)
+                rfail(res, 'ready is not high exactly in the accepting state', rp)
             for cmd in cs['cmds']:
                 res.hist('req_cmd_kind', cmd[0])
                 if cmd[0] != 'S':
@@ -355,26 +437,9 @@ def req_stream(res, tier, rng, driver_ok):
                 lines.append(f"reqspec | {c} | {enc_cmds(cs['cmds'])} | {';'.join(','.join(str(x) for x in w) for w in wrows)}")
                 iso = all(not (a[8] and b[8]) for a, b in zip(wrows, wrows[1:]))
                 infos.append(('spec', rp, (chars, exp, obs, iso)))
-    if driver_ok and lines:
-        outs = run_driver('Drv/C20.lean', lines)
-        for (kind, rp, dat), ans in zip(infos, outs):
-            res.cov['disagreements_checked'] += 1
-            if kind == 'open':
-                want = ';'.join(','.join(str(x) for x in rw) for rw in dat)
-                if ans.strip() != want:
-                    res.disagree('req-open', dict(rp, first_diff=_first_diff(ans.strip().split(';'), want.split(';'))))
-            elif kind == 'loop':
-                rows, left = dat
-                want = ';'.join(','.join(str(x) for x in rw) for rw in rows) + f' | {left}'
-                if ans.strip() != want:
-                    res.disagree('req-loop', dict(rp, first_diff=_first_diff(ans.split('|')[0].strip().split(';'), want.split('|')[0].strip().split(';'))))
-            else:
-                chars, exp, obs, iso = dat
-                f = [x.strip() for x in ans.split('|')]
-                want = ['1', ','.join(str(x) for x in chars), ','.join(exp), ','.join(obs), '1' if iso else '0']
-                if f != want:
-                    res.disagree('req-spec(lean spec vs python transcription of the spec)', dict(rp, lean=f, python=want))
-                # f[2] != f[3] (meaning vs observed events) is the oracle failure already reported through res.fail above
+            if len(lines) >= 1500:
+                flush()
+    flush()
 
 
 def _first_diff(a, b):
@@ -388,6 +453,9 @@ def _first_diff(a, b):
 def fail_resp(res, what, rp):
     """size 0 used to be the known finding C20-resp-size-zero (fixed in /repo 21add98): a failure there is a recurrence and
     must be a VIOLATION, so it bypasses the known-findings matching whatever status known_findings.json still carries"""
+    res.hist('oracle_failures', what[:60])
+    if len(res.failures) >= MAX_RECORDED:
+        return
     if rp.get('size') == 0:
         res.failures.append({'what': what + ' [recurrence of C20-resp-size-zero, fixed in 21add98]', 'replay': rp})
     else:
@@ -464,6 +532,28 @@ def resp_stream(res, tier, rng, driver_ok):
                for _ in range(n)]
         cases.append(dict(wv=8, wvin=wvin, ins=ins, kind='session'))
     lines, infos = [], []
+    def flush():
+        if not (driver_ok and lines):
+            return
+        outs = run_driver('Drv/C20.lean', lines)
+        for (kind, rp, dat), ans in zip(infos, outs):
+            res.cov['disagreements_checked'] += 1
+            if kind == 'rows':
+                rows, tr, raised = dat
+                want_rows = [','.join(str(x) for x in rw) for rw in rows] + (['raise'] if raised is not None else [])
+                want_tr = 'raise' if raised is not None else ','.join(str(x) for x in tr)
+                f = [x.strip() for x in ans.split('|')]
+                got_rows = f[0].split(';') if f[0] else []
+                if got_rows != want_rows:
+                    rdis(res, 'resp-rows', dict(rp, first_diff=_first_diff(got_rows, want_rows)))
+                elif f[1] != want_tr:
+                    rdis(res, 'resp-transfers', dict(rp, model=f[1], real=want_tr))
+            else:
+                if ans.strip() != ','.join(str(x) for x in dat):
+                    rdis(res, 'resp-spec(lean spec vs python transcription of the spec)', dict(rp, lean=ans, python=dat))
+        del lines[:]
+        del infos[:]
+
     for cs in cases:
         wv, wvin = cs['wv'], cs['wvin']
         if 'ins' in cs:
@@ -508,23 +598,9 @@ def resp_stream(res, tier, rng, driver_ok):
             if 's' in cs:
                 lines.append(f"respspec | {wv},{cs['s']},{cs['v']}")
                 infos.append(('spec', rp, exp))
-    if driver_ok and lines:
-        outs = run_driver('Drv/C20.lean', lines)
-        for (kind, rp, dat), ans in zip(infos, outs):
-            res.cov['disagreements_checked'] += 1
-            if kind == 'rows':
-                rows, tr, raised = dat
-                want_rows = [','.join(str(x) for x in rw) for rw in rows] + (['raise'] if raised is not None else [])
-                want_tr = 'raise' if raised is not None else ','.join(str(x) for x in tr)
-                f = [x.strip() for x in ans.split('|')]
-                got_rows = f[0].split(';') if f[0] else []
-                if got_rows != want_rows:
-                    res.disagree('resp-rows', dict(rp, first_diff=_first_diff(got_rows, want_rows)))
-                elif f[1] != want_tr:
-                    res.disagree('resp-transfers', dict(rp, model=f[1], real=want_tr))
-            else:
-                if ans.strip() != ','.join(str(x) for x in dat):
-                    res.disagree('resp-spec(lean spec vs python transcription of the spec)', dict(rp, lean=ans, python=dat))
+            if len(lines) >= 20000:
+                flush()
+    flush()
 
 
 def size_zero_witness(res):
@@ -546,6 +622,19 @@ def sys_stream(res, tier, rng, driver_ok):
     waits for '!' after every O command (as DUTProxy.propagate does); vin = table[index_out], size = digits[index_out]"""
     n = 40 if tier == 'quick' else 2000
     lines, infos = [], []
+    def flush():
+        if not (driver_ok and lines):
+            return
+        outs = run_driver('Drv/C20.lean', lines)
+        for (kind, rp, rows), ans in zip(infos, outs):
+            res.cov['disagreements_checked'] += 1
+            got = ans.split('|')[0].strip().split(';')
+            want = [','.join(str(x) for x in rw) for rw in rows]
+            if got != want:
+                rdis(res, 'sys-' + kind, dict(rp, first_diff=_first_diff(got, want)))
+        del lines[:]
+        del infos[:]
+
     for i in range(n):
         r = rng.fork(('sys', i))
         cfg = (r.randint(1, 4), 32, r.randint(1, 3))
@@ -569,7 +658,10 @@ def sys_stream(res, tier, rng, driver_ok):
         ins_req, rows_req, ins_resp, rows_resp, tr = [], [], [], [], []
         waiting, gap, t, idle = 0, 0, 0, 0
         exp_resp = []
-        while idle < 4 and t < 5000:
+        # cycle budget from the stream: <= gapmax+4 cycles per character, 2n+6 per K, a response of <= 10 characters needs <= 22 ready
+        # cycles (random ready: generous factor); beyond it the run counts as stalled
+        budget = 200 + 12 * len(queue) + sum(300 if k == 'O' else (2 * hex_val(ds) + 6 if k == 'K' else 0) for k, ds in cmds)
+        while idle < 4 and t < budget:
             if queue and not waiting and gap == 0:
                 v, c = 1, queue[0][1]
             else:
@@ -603,12 +695,15 @@ def sys_stream(res, tier, rng, driver_ok):
         rp = dict(stream='sys', cfg=list(cfg), cmds=[cmd_str(c) for c in cmds], table=table, sizes=sizes, ready_mode=rdy_mode,
                   cycles=t)
         exp = [e for cmd in cmds for e in cmd_meaning(cfg, cmd)]
-        obs = events_of([rw[4:] for rw in rows_req])
-        if obs != exp:
-            res.fail('decoded strobe events differ from the meaning of the command stream (system stream)',
+        obs = events_of([rw[4:] for rw in rows_req], limit=len(exp) + 64)
+        if idle < 4:
+            rfail(res, 'the decoder/encoder pair stalled within the cycle budget (system stream)',
+                  dict(rp, budget=budget, characters_left=len(queue), waiting_for_response=waiting, expected=exp[:60], observed=obs[:60]))
+        elif obs != exp:
+            rfail(res, 'decoded strobe events differ from the meaning of the command stream (system stream)',
                      dict(rp, expected=exp[:60], observed=obs[:60]))
         if tr != exp_resp:
-            res.fail('characters sent back differ from the expected responses (system stream)',
+            rfail(res, 'characters sent back differ from the expected responses (system stream)',
                      dict(rp, expected=exp_resp, observed=tr, text=''.join(chr(c) for c in tr)))
         if driver_ok:
             c = ','.join(str(x) for x in cfg)
@@ -616,14 +711,9 @@ def sys_stream(res, tier, rng, driver_ok):
             infos.append(('req', rp, rows_req))
             lines.append(f"resp | {wv} | 0,0,0,0,0,0 | {';'.join(','.join(str(x) for x in i_) for i_ in ins_resp)}")
             infos.append(('resp', rp, rows_resp))
-    if driver_ok and lines:
-        outs = run_driver('Drv/C20.lean', lines)
-        for (kind, rp, rows), ans in zip(infos, outs):
-            res.cov['disagreements_checked'] += 1
-            got = ans.split('|')[0].strip().split(';')
-            want = [','.join(str(x) for x in rw) for rw in rows]
-            if got != want:
-                res.disagree('sys-' + kind, dict(rp, first_diff=_first_diff(got, want)))
+            if len(lines) >= 400:
+                flush()
+    flush()
 
 
 # ------------------------------------------------------------------------------------------------
